@@ -13,7 +13,8 @@ func init() {
 
 // syncSkeleton lists, in source order, the operations of a function that matter for atomicity:
 // guard Lock/Unlock (deferred or not), channel sends/receives, reads and writes of the id table and
-// of the cancelled mark, container/heap calls.
+// of the cancelled mark, container/heap calls, and the schedule points of the verification hook (yield:decide
+// must sit immediately before the guarded decision, yield:send immediately before the send).
 func syncSkeleton(p *Pkg, fd *ast.FuncDecl) string {
 	var out []string
 	emit := func(s string) { out = append(out, s) }
@@ -88,6 +89,10 @@ func syncSkeleton(p *Pkg, fd *ast.FuncDecl) string {
 			case strings.HasPrefix(fun, "heap."):
 				emit(fun)
 				return
+			case fun == "verifYield" && len(x.Args) == 3:
+				pt := p.Src(x.Args[1])
+				emit("yield:" + strings.Trim(pt, "\""))
+				return
 			case fun == "close":
 				emit("close:" + last(x.Args[0]))
 				return
@@ -144,7 +149,7 @@ var expectedC06 = [][3]string{
 	{"HHWheelTimer", "IsScheduled", "Lock read:refer Unlock"},
 	{"HHWheelTimer", "isCancelled", "Lock read:cancelled Unlock"},
 	{"HHWheelTimer", "delTimer", ""},
-	{"HHWheelTimer", "expireNear", "Lock read:cancelled delete:refer Unlock send:C"},
+	{"HHWheelTimer", "expireNear", "yield:decide Lock read:cancelled delete:refer Unlock yield:send send:C"},
 	{"HHWheelTimer", "worker", "send:ready select{ case recv:C case recv:pendingAdd case recv:pendingDel case recv:done }"},
 	{"TimerQueue", "schedule", "Lock defer-Unlock send:pendingAdd write:refer"},
 	{"TimerQueue", "Cancel", "Lock defer-Unlock read:refer write:cancelled send:pendingDel delete:refer"},
@@ -152,8 +157,8 @@ var expectedC06 = [][3]string{
 	{"TimerQueue", "IsScheduled", "Lock read:refer Unlock"},
 	{"TimerQueue", "addNode", "Lock read:cancelled Unlock heap.Push"},
 	{"TimerQueue", "delNode", "heap.Remove"},
-	{"TimerQueue", "trigger", "Lock read:cancelled heap.Pop heap.Fix heap.Pop delete:refer Unlock"},
-	{"TimerQueue", "tick", "send:C"},
+	{"TimerQueue", "trigger", "yield:decide Lock read:cancelled heap.Pop heap.Fix heap.Pop delete:refer Unlock"},
+	{"TimerQueue", "tick", "yield:send send:C"},
 	{"TimerQueue", "worker", "send:ready select{ case recv:C case recv:pendingAdd case recv:pendingDel case recv:done }"},
 }
 
